@@ -29,6 +29,11 @@ CHECKS = {
    technique="deterministic simulation: full chain + real resolver on fake clock; genuine signed NSEC/NSEC3 records substituted path-wide; zone model existence/type truth; upstream-free (synthesised) denials checked against delivered live proofs",
    text="Seeded search over fully signed static hierarchies with denial structure, question histories dominated by absent names/types in phases (so RFC 8198 / RFC 8020 caches answer later ones alone), and 13 kinds of substitution of genuine, correctly signed denial records (other interval, subset, duplicates, sibling/child zone, rcode relabelling, no-DS claims with forged unsigned child data, wildcard replay with or without foreign NSEC). A name that exists is never denied, a present type never reported absent, substituted data never accepted, synthesised denials need a live CD=0 proof and never rest on opt-out. Subsets/orderings are sampled, not enumerated.",
    note="Trusts authsim's NSEC/NSEC3 chains (validated by sdns itself in fault-free runs) and the Truth model; names that are not owners of an opt-out zone are treated as unauthenticated (RFC 5155 §12.2). Proof lifetime is checked with 6 s slack (exact lifetimes belong to C04)."),
+ "C08": dict(
+   level="exploration", design="§3 C08",
+   technique="deterministic simulation: full chain + real resolver on fake clock (hours to days); scripted withdrawal/re-pointing at the parent while the old child stays alive; lease model over delivered referrals as oracle",
+   text="Seeded search over delegation TTL combinations (1 s to 3 d, crossing the 12 h ceiling), signed/unsigned, withdrawal or re-pointing time, old-child behaviours (long TTLs, own NS set and glue padded into every answer), prefetch-hot question schedules and referral-path latency. Every referral delivered to sdns grants a lease; for questions arriving after the last lease to the old servers ended no old-child record may be served, no packet may reach the old servers, and the reply must equal the parent's current data.",
+   note="Trusts the generation tags in rdata and the lease model (ancestor bound taken generously). Questions arriving within 50 ms of the lease end are not judged."),
 }
 
 NOT_APPLICABLE = {
